@@ -116,7 +116,11 @@ Chunk *align_func_param(Chunk *start)
       {
          comma_count = 0;
          chunk_count = 0;
-         many_as[pc->GetLevel()].NewLines(pc->GetNlCount());
+
+         if (pc->GetLevel() <= HOW_MANY_AS)                 // there is no stack for a deeper level
+         {
+            many_as[pc->GetLevel()].NewLines(pc->GetNlCount());
+         }
       }
       else if (pc->GetLevel() <= start->GetLevel())
       {
